@@ -282,6 +282,7 @@ def build():
     # base path: the capacity is carried ONLY by row adjacency in the permutation table; the callee contract therefore has a precondition on the caller's HISTORY:
     # no other sponge row of that table was emitted since this challenger's previous duplexing.  Nothing in the API establishes it (finding C05-d1-capacity-chained-by-row-adjacency).
     PERM_CONTRACT_BASE = PERM_CONTRACT.replace('requires old(self).initialized,', 'requires latest_sponge_row_of_the_table_is_this_challengers_previous_duplexing(old(circuit), *old(self)), old(self).initialized,')
+    u.text('verus! {\n/// the compact D=1 permutation tables add the absorb-length tag to a fixed state slot (8 for the W16 tables), whatever RATE the challenger type was instantiated with\npub uninterp spec fn challenger_rate_is_the_base_tables_rate(rate: int) -> bool;\n}')
     u.text('verus! {\n/// HISTORY precondition of the D=1 (base-field) duplexing: see PERM_CONTRACT_BASE\npub uninterp spec fn latest_sponge_row_of_the_table_is_this_challengers_previous_duplexing<EF: Field, const WIDTH: usize, const RATE: usize, C: ChallengerPermConfig>(cb: &CircuitBuilder<EF>, ch: CircuitChallenger<WIDTH, RATE, C>) -> bool;\n}')
     u.text('verus! {\nimpl<const WIDTH: usize, const RATE: usize, C: ChallengerPermConfig> CircuitChallenger<WIDTH, RATE, C> {\n'
            '    /// ASSUMED callee contract (extension path): the caller has already applied the length tag\n'
@@ -307,6 +308,8 @@ def build():
     d = common(u.extract(F, IMPL, 'duplexing', 'CircuitChallenger::duplexing'))
     d.set_sig('R11', 'fn duplexing<EF: ExtX>(&mut self, circuit: &mut CircuitBuilder<EF>)')
     rw_duplexing(d)
+    # the D=1 tables put the absorb-length tag into state slot 8 (their own rate); the challenger type is generic in RATE and nothing ties the two
+    d.rewrite_re('SPEC', r'(self\.duplexing_base(?:_p1)?\(circuit, )', r'proof { assert(challenger_rate_is_the_base_tables_rate(RATE as int)); } // @@A:H_the_challengers_rate_is_the_rate_the_base_table_tags\n            \1', min_count=0)
     d.requires('inv', 'old(self).inv_full(old(circuit))')
     d.ensures('refines_native_duplexing', 'final(self).abs(final(circuit)) == n_duplex(old(self).abs(old(circuit)), RATE as nat)')
     d.ensures('inv', 'final(self).inv(final(circuit)) && final(self).initialized && final(self).output_buffer@.len() == RATE')
